@@ -292,8 +292,8 @@ pub fn gen_script(rng: &mut Rng, total: usize) -> Vec<Ev> {
         });
     }
     // interruption storms: thousands of transient interruptions in one stream
-    if rng.chance(1, 12) {
-        let storms = rng.range(1100, 4000);
+    if rng.chance(1, if gen::small() { 40 } else { 12 }) {
+        let storms = if gen::small() { rng.range(1030, 1100) } else { rng.range(1100, 4000) };
         let at = rng.below(s.len() as u64 + 1) as usize;
         let mut storm = Vec::with_capacity(storms as usize + 8);
         for k in 0..storms {
@@ -438,15 +438,31 @@ pub fn files(ctx: &Ctx, rep: &mut Report) {
         }
         let _ = std::fs::remove_file(&path);
     }
-    // files whose metadata under-reports their contents (procfs reports length 0)
-    for special in ["/proc/version", "/proc/self/status", "/proc/cpuinfo"] {
+    // files whose metadata under-reports their contents (procfs reports length 0); only files
+    // whose contents do not change are used, and a case is judged only if the contents were the
+    // same before and after the helper read them
+    for special in ["/proc/version", "/proc/filesystems", "/proc/cmdline"] {
         let path = std::path::Path::new(special);
-        if let Ok(content) = std::fs::read(path) {
-            // /proc/self/status may change between two reads: compare only stable ones
-            let again = std::fs::read(path).unwrap_or_default();
-            if content == again && !content.is_empty() {
-                all_variants!(file_one, path, &content, rep);
+        if let Ok(before) = std::fs::read(path) {
+            if before.is_empty() {
+                continue;
+            }
+            let mut scratch = Report::new("scratch", "scratch");
+            all_variants!(file_one, path, &before, &mut scratch);
+            let after = std::fs::read(path).unwrap_or_default();
+            if before == after {
+                rep.eval(scratch.evaluations);
                 rep.count("special_files_hashed", 1);
+                rep.count("files_hashed", scratch.counters.get("files_hashed").copied().unwrap_or(0));
+                for v in scratch.violations {
+                    rep.violation(
+                        v.get("signature").and_then(|s| s.as_str()).unwrap_or("file|special"),
+                        v.get("what").and_then(|s| s.as_str()).unwrap_or(""),
+                        v.get("case").cloned().unwrap_or(Json::Null),
+                    );
+                }
+            } else {
+                rep.count("special_files_changed_while_reading(skipped)", 1);
             }
         }
     }
